@@ -309,3 +309,10 @@ Lemma ex_preflight :
   preflight_handler [(true, mkRule [bs "%origin"%string] false [] [bs "PUT"%string; bs "GET"%string] [] (Some 600))] ex_pre =
   Some (mkHdrs [bs "Origin"%string] [bs "http://a.example"%string] [] [bs "PUT,GET"%string] [] [bs "600"%string] []).
 Proof. vm_compute. reflexivity. Qed.
+
+(* corpus case prevary-two (corpus/C52/vary.case): well-formed, and the model adds the Origin line *)
+Definition w_corpus : val := (VL [(VL [(VL [(VZ 1); (VL [(VL [(VB [104;116;116;112;58;47;47;97])]); (VZ 1); (VL []); (VL []); (VL []); (VL [])])])]); (VL [(VB [71;69;84]); (VL [(VB [104;116;116;112;58;47;47;97])]); (VL []); (VZ 1)]); (VL [(VL [(VB [65;99;99;101;112;116;45;69;110;99;111;100;105;110;103]); (VB [67;111;111;107;105;101])]); (VL []); (VL []); (VL []); (VL []); (VL []); (VL [])]); (VZ 0)]).
+Lemma wf_corpus_example : wf_C52 w_corpus = true /\ kf_C52 w_corpus = 0 /\ prop_C52 w_corpus (run_C52 w_corpus) = true
+  /\ run_C52 w_corpus = VL [VZ 0; VL [vLB [bs "Accept-Encoding"%string; bs "Cookie"%string; bs "Origin"%string]; vLB [bs "http://a"%string];
+                                     vLB [bs "true"%string]; vLB []; vLB []; vLB []; vLB []]].
+Proof. vm_compute. repeat split. Qed.
